@@ -195,6 +195,11 @@ NOT_YET = {
 NOT_APPLICABLE: dict[str, str] = {}
 
 
+# how the decisions are reached after the benign-refactor round (DESIGN.md 9.7): abstract runs over generic scenarios
+METHOD = (" Since the behaviour-preserving-refactor round, the clauses that used to be matched on the shape of one function are decided by abstract interpretation of the operation's own source "
+          "(helpers folded in or followed interprocedurally) over generic scenarios: names, hashes, dates and file contents are opaque markers / uninterpreted library terms, the verdict is read off "
+          "the resulting effect trace or value, and anything the interpreter cannot model is reported as undecided (exit 2), never as a pass.")
+
 # rules added after the two rounds of independent seeded changes (see DESIGN.md, detection table)
 ADDENDA = {
     "C01": " Added: the century rule (no %y in any parsing format of zorg.shared.dates, the short-date parser feeds %Y with a constant '20'), and the id-word rule is now decided on "
@@ -227,7 +232,7 @@ def main() -> None:
         pid = p["id"]
         if pid in CHECKS:
             tech, text, note, ref = CHECKS[pid]
-            text = text + ADDENDA.get(pid, "")
+            text = text + ADDENDA.get(pid, "") + (METHOD if pid in ("C02", "C03", "C05", "C06", "C08", "C09", "C10", "C11", "C12", "C13", "C14", "C18") else "")
             checks.append(
                 {
                     "property_id": pid,
